@@ -139,10 +139,67 @@ def _spellings(case, out, stats):
         impl.close()
 
 
+def name_resolution(out, stats):
+    """Every name is resolved in the cells' own space: sibling cells and space-level
+    references win over model-level references of the same name, which win over built-ins;
+    whichever was defined first."""
+    from ..impl import close_all
+    for order in (0, 1):
+        close_all()
+        with quiet():
+            m = mx.new_model("N")
+            other = m.new_space("Other")
+            other.new_cells("f", formula="def f(x): return 1000 + x")
+            s = m.new_space("S")
+
+            def model_level():
+                m.y = 100
+                m.z = 5
+                m.len = 77
+
+            def space_level():
+                s.new_cells("f", formula="def f(x): return 1 + x")
+                s.y = 1
+                s.len = 7
+            if order == 0:
+                model_level()
+                space_level()
+            else:
+                space_level()
+                model_level()
+            # a model-level name equal to a cells name can only be created after the cells
+            m.f = other.f
+            s.new_cells("g", formula="def g(x): return f(x)")
+            s.new_cells("h", formula="def h(): return y")
+            s.new_cells("j", formula="def j(): return z")
+            s.new_cells("k", formula="def k(): return len")
+            s.new_cells("b", formula="def b(): return abs(-3)")
+            got = {}
+            for nm, call in (("g", lambda: s.g(2)), ("h", lambda: s.h()), ("j", lambda: s.j()),
+                             ("k", lambda: s.k()), ("b", lambda: s.b())):
+                try:
+                    got[nm] = call()
+                except Exception as e:
+                    got[nm] = "error %s" % type(e).__name__
+            want = {"g": 3, "h": 1, "j": 5, "k": 7, "b": 3}
+            stats["name_resolution_scenarios"] += 1
+            if got != want:
+                out.fail("names resolved outside the cells' own space (definition order %d): got %r, want %r" % (
+                    order, got, want), {"scenario": "name_resolution", "order": order})
+        close_all()
+
+
 def run(ctx, out):
-    X.run_family(ctx, out, CFG, oracle, 150, 2500)
+    stats = X.run_family(ctx, out, CFG, oracle, 150, 2500)
+    name_resolution(out, stats)
+    out.coverage["input_distribution"]["name_resolution_scenarios"] = stats["name_resolution_scenarios"]
     out.assumptions.append("Python's own evaluation of arithmetic and inspect.Signature.bind are exercised, not modelled")
 
 
 def replay(ctx, payload, out):
+    import collections
+    h = payload.get("history") or {}
+    if isinstance(h, dict) and h.get("scenario") == "name_resolution":
+        name_resolution(out, collections.Counter())
+        return
     X.replay_family(ctx, payload, out, CFG, oracle)
